@@ -205,7 +205,80 @@ def instance_loss(src, n=3, crash=False):
     src.obs('requests', sorted(list(r) for r in requests))
 
 
+@rigged
+def process_crash(src, n=3):
+    """H06e: one copy of a managed process crashes (FATAL, or unexpected EXITED) on a solver-chosen instance while the
+    process runs on a solver-chosen set of instances (USER conciliation: duplicates are left alone): the strategy
+    applies only when the process ran nowhere else, only on the Master, once"""
+    from supvisors.ttypes import RunningFailureStrategies as RFS
+    is_master = src.pick_flag('local_is_master')
+    core = FC.operational(n, {'conciliation_strategy': 'USER'}, master=0 if is_master else 1)
+    ids = core.ids
+    sim = Sim(core)
+    for i in ids:
+        core.add_process(i, 'app', 'p', PS.STOPPED)
+        core.add_process(i, 'app', 'other', PS.STOPPED)
+    holders = src.pick('holders', [c for k in (1, 2) for c in itertools.combinations(range(n), k)])
+    for h in holders:
+        core.process_event(ids[h], 'app', 'p', PS.STARTING)
+        core.process_event(ids[h], 'app', 'p', PS.RUNNING)
+    core.process_event(ids[0], 'app', 'other', PS.RUNNING)
+    strat = src.pick('strategy', STRATS)
+    app = core.context.applications['app']
+    adapter.set_rules(app.rules, managed=True, start_sequence=1)
+    adapter.set_rules(app.processes['p'].rules, running_failure_strategy=RFS[strat], start_sequence=1,
+                      expected_load=10)
+    adapter.set_rules(app.processes['other'].rules, start_sequence=1, expected_load=10)
+    core.finalize_rules()
+    FC.cluster_round(core)          # a duplicate sends the Master to CONCILIATION (USER: nothing is done)
+    core.rpc_handler.out.clear()
+    sim.cursor = 0
+    victim = src.pick('crashing_copy', list(holders))
+    how = src.pick('how', ['fatal', 'exited'])
+    if how == 'fatal':
+        core.process_event(ids[victim], 'app', 'p', PS.FATAL, expected=False, spawnerr='crash')
+    else:
+        core.process_event(ids[victim], 'app', 'p', PS.EXITED, expected=False)
+    requests = []
+    for _ in range(6):
+        for kind, ident, ns in sim.new_requests():
+            requests.append((kind, ident, ns))
+            if kind == 'start':
+                sim.ack_start(ident, ns)
+            else:
+                sim.ack_stop(ident, ns)
+        FC.cluster_round(core)
+    elsewhere = [h for h in holders if h != victim]
+    sig = f'{strat}:{"still-running-elsewhere" if elsewhere else "ran-only-there"}'
+    starts = [ns for k, _, ns in requests if k == 'start']
+    stops = [ns for k, _, ns in requests if k == 'stop']
+    ctx = dict(sig=sig, requests=requests[:6])
+    if not is_master:
+        src.reach('non-master')
+        src.check('non-master-does-nothing', not requests, **ctx)
+        return
+    src.reach('master')
+    if elsewhere:
+        src.reach('still-running-elsewhere')
+        src.check('no-strategy-while-the-process-still-runs', not requests, **ctx)
+    elif strat in ('CONTINUE', 'RESTART_PROCESS'):
+        # on a crash only the application-level strategies apply (restarting one process is Supervisor's autorestart)
+        src.reach('process-level-strategy')
+        src.check('process-level-strategy-starts-and-stops-nothing', not requests, **ctx)
+    elif strat == 'STOP_APPLICATION':
+        src.reach('stop-application')
+        src.check('application-stopped', 'app:other' in stops and not starts, **ctx)
+    else:
+        src.reach('restart-application')
+        src.check('application-stopped-then-restarted', 'app:other' in stops and sorted(starts) == ['app:other',
+                                                                                                   'app:p'], **ctx)
+    src.check('no-internal-error', not core.logger.tracebacks(), log=core.logger.tracebacks()[:1])
+
+
 HARNESSES = [
+    Harness('H06e', process_crash, quick={'n': 3}, thorough={'n': 3}, reach=('master', 'non-master',
+            'still-running-elsewhere', 'process-level-strategy', 'stop-application', 'restart-application'),
+            timeout=(100, 300), doc='crash of one copy: strategy only if the process ran only there, Master only'),
     Harness('H06a', handler_algebra, quick={'k': 3}, thorough={'k': 4}, reach=('fed',), timeout=(120, 1200),
             doc='RunningFailureHandler job algebra: precedence and promotion over sequences of notifications'),
     Harness('H06d', instance_loss, quick={'n': 3}, thorough={'n': 3}, reach=('master', 'non-master',
